@@ -98,8 +98,8 @@ def gen_cases(chk):
     rng = chk.rng
     pool = rule_pool()
     cases = []
-    n2 = 1500 if chk.tier == "quick" else 20000
-    n34 = 1500 if chk.tier == "quick" else 20000
+    n2 = 1500 if chk.tier == "quick" else 9000
+    n34 = 1500 if chk.tier == "quick" else 9000
     # every single rule
     for r in pool:
         for algo in polgen.ALGOS:
